@@ -4,6 +4,7 @@
 From Coq Require Import ZArith QArith List Bool.
 Require Import SkV.Lib.Base SkV.Lib.ZRange SkV.C11.Model SkV.C11.Proofs SkV.C11.Gen SkV.C11.Bridge.
 Require Import SkV.C11.OptsModel SkV.C11.GenOpts SkV.C11.OptsBridge.
+Require Import SkV.C11.GenAdapter SkV.C11.AdapterBridge.
 Import ListNotations.
 Open Scope Z_scope.
 
@@ -225,6 +226,16 @@ Theorem C11_adapter_selects_requested_steps : forall n (g : Z -> oq) fh, sorted_
 Proof. exact adapter_selects. Qed.
 Print Assumptions C11_adapter_selects_requested_steps.
 
+(* ... also when the cutoff differs from the end of the wrapped model's own data: after fit on n0
+   observations and update(update_params=False) with k more (no refit), the forecasts are the wrapped
+   model's values g at the absolute positions cutoff + r = n0+k-1+r counted from the start of the data
+   it was fitted on (k = 0: the plain fit / predict case) *)
+Theorem C11_adapter_forecasts_at_cutoff_plus_fh : forall n0 k (g : Z -> oq) fh, sorted_lt fh -> fh <> [] ->
+  adapter_predict_at n0 k (map g (zrange (n0 + k - 1 + zfirst fh) (n0 + k - 1 + zlast fh + 1) 1)) fh
+  = Ok (map (fun r => g (n0 + k - 1 + r)) fh).
+Proof. exact adapter_at_selects. Qed.
+Print Assumptions C11_adapter_forecasts_at_cutoff_plus_fh.
+
 (* ==== THROUGH THE BRIDGE: the same statements about what the code says NOW ====================
    gen_resolve_wl / gen_kernel are regenerated on this run from NaiveForecaster.fit and
    NaiveForecaster._predict_last_window (whole function bodies), gen_naive_predict assembles them
@@ -384,6 +395,24 @@ Proof.
 Qed.
 Print Assumptions C11_code_adapters_forward_every_option.
 
+(* _StatsModelsAdapter._predict as regenerated on this run (C11/GenAdapter.v): start / end handed to the
+   wrapped results are the positions of the first / last requested step counted from the first time
+   stamp t0 of the training series and placed by the cutoff t0+n0+k-1, and the values returned are the
+   wrapped model's at cutoff + r *)
+Theorem C11_code_adapter_forecasts_at_cutoff_plus_fh : forall t0 n0 k (g : Z -> oq) fh,
+  sorted_lt fh -> fh <> [] ->
+  (gen_adapter_start t0 (t0 + n0 + k - 1) fh = n0 + k - 1 + zfirst fh /\
+   gen_adapter_end t0 (t0 + n0 + k - 1) fh = n0 + k - 1 + zlast fh) /\
+  gen_adapter_predict t0 (t0 + n0 + k - 1)
+    (map g (zrange (gen_adapter_start t0 (t0 + n0 + k - 1) fh)
+                   (gen_adapter_end t0 (t0 + n0 + k - 1) fh + 1) 1)) fh
+  = Ok (map (fun r => g (n0 + k - 1 + r)) fh).
+Proof.
+  intros t0 n0 k g fh Hs Hne. split; [apply bridge_adapter_range|].
+  exact (code_adapter_forecasts_at_cutoff_plus_fh t0 n0 k g fh Hs Hne).
+Qed.
+Print Assumptions C11_code_adapter_forecasts_at_cutoff_plus_fh.
+
 (* the hypotheses are satisfiable by a non-trivial instance: sp = 3, window of 5 (not a multiple of
    3), a missing value, horizons beyond two seasons; and a quadratic fit exists *)
 Example C11_nonvacuous :
@@ -399,5 +428,8 @@ Example C11_nonvacuous :
   resolve_wl SDrift 1 None 1 = Err /\ resolve_wl SMean 4 None 2 = Err /\
   gen_resolve_wl SDrift 1 None 1 = Err /\ gen_resolve_wl SMean 4 None 2 = Err /\
   gen_naive_predict SMean 3 (Some 5) ys [-3; 1; 7] = Ok [Some (1 # 1)%Q; Some 16%Q; Some 16%Q] /\
-  poly_fit 2 true [Some 1; Some 2; Some 4; Some 8]%Q = Ok [(21 # 20)%Q; (1 # 20)%Q; (3 # 4)%Q].
+  poly_fit 2 true [Some 1; Some 2; Some 4; Some 8]%Q = Ok [(21 # 20)%Q; (1 # 20)%Q; (3 # 4)%Q] /\
+  (* adapter, 4 observations at fit + 2 by update without refit: steps 1 and 3 from cutoff position 5 *)
+  adapter_predict_at 4 2 [Some 7; Some 8; Some 9]%Q [1; 3] = Ok [Some 7%Q; Some 9%Q] /\
+  gen_adapter_start 10 15 [1; 3] = 6 /\ gen_adapter_end 10 15 [1; 3] = 8.
 Proof. vm_compute. repeat split; reflexivity. Qed.
